@@ -228,6 +228,7 @@ func runC11(c *Ctx, tier string) {
 	runReaderSanityTests(c, "C11-V2")
 	runValidateDescendsIntoSets(c, "C11-V3")
 	runReadResultsNilTested(c, "C11-R2")
+	runUntagLoopsStopAtNull(c, "C11-U1")
 }
 
 func init() {
